@@ -189,8 +189,8 @@ def run(c):
     src = open(os.path.join(REPO, "src", "bin", "wit-bindgen.rs")).read()
     c.cov["check_branch_shape"] = bool(re.search(r"if opt\.check \{.*?continue;\s*\}\s*if let Some\(parent\)", src, re.S))
 
-    nworlds = 3 if c.tier == "quick" else 12
-    nscen = 8 if c.tier == "quick" else 40
+    nworlds = 3 if c.tier == "quick" else 9
+    nscen = 8 if c.tier == "quick" else 30
     work_root = os.path.join(BUILD, "tmp")
     os.makedirs(work_root, exist_ok=True)
     W = tempfile.mkdtemp(prefix="C33-", dir=work_root)
